@@ -44,7 +44,22 @@ def programs(tier):
     for k in range(120 if quick else 1200):
         g = G.Gen(r, max_depth=2)
         progs.append(("mutated", G.mutate(r, g.program(r.choice([1, 2, 3])))))
+    # every documented refusal, and its neighbours that must convert
+    for p in REFUSAL_PROBES:
+        progs.append(("refusal-probe", p))
     return progs
+
+
+REFUSAL_PROBES = [
+    "10 ON ERR GOTO 100\n20 ON ERR GOTO 100\n100 END", "10 ON ERR GOTO 100:ON ERR GOTO 200\n100 END\n200 END",
+    "10 ON ERR GOTO 100\n20 ON ERR GOTO 100\n30 ON ERR GOTO 100\n100 END", "10 ON BRK GOTO 100\n20 ON BRK GOTO 100\n100 END",
+    "10 ON BRK GOTO 100\n20 ON BRK GOTO 200\n100 END\n200 STOP", "10 ON ERR GOTO 100\n20 ON BRK GOTO 100\n100 END",
+    "10 ON ERR GOTO 100\n20 ON BRK GOTO 200\n100 END\n200 END", "10 ON ERR GOTO 100\n100 END", "10 ON BRK GOTO 0\n0 END",
+    "10 IF A THEN ON ERR GOTO 20 ELSE ON ERR GOTO 30\n20 END\n30 END", "10 ON ERR GOTO 999", "10 ON BRK GOTO 999\n20 ON ERR GOTO 20",
+    "10 GOTO 20", "10 GOSUB 5\n20 END", "10 IF A=1 THEN 50", "10 IF A=1 THEN PRINT ELSE 60", "10 ON A GOTO 10,20,30\n20 END",
+    "10 ON A GOSUB 10,99", "32699 END", "32700 END", "32701 PRINT", "99999 GOTO 99999", "10 GOTO 32700", "0 GOTO 0", "10 GOTO 0",
+    "10 PRINT\n10 PRINT", "20 PRINT\n10 PRINT",
+]
 
 
 def cases(tier):
